@@ -63,7 +63,16 @@ func (g *Gen) wireType(t *schema.Type, out *[]byte) {
 		case "bodylen":
 			lenOff, lenW = len(*out), schema.Width(f.Prefix)
 			lenCorrect = g.R.Bool()
-			*out = putInt(*out, lenW, g.R.U64(), t.LE)
+			// an incorrect length word is random, or one of the values a decoder might treat specially: 0, 1, all-ones
+			garbage := g.R.U64()
+			switch g.R.Intn(4) {
+			case 0:
+				garbage = 0
+				g.feat("wire:length-word-zero-with-a-body")
+			case 1:
+				garbage = []uint64{1, 4, ^uint64(0), 1 << 31}[g.R.Intn(4)]
+			}
+			*out = putInt(*out, lenW, garbage, t.LE)
 		case "union":
 			bs := len(*out)
 			g.wireType(bodies[f.Name], out)
